@@ -5,7 +5,9 @@ concerned, into programs of Model/Flow.v, and the __main__ block of process_geno
 usage: py2gallina_flow.py <repo> <outdir>     writes <outdir>/GenFlow.v and <outdir>/flow.status
 
 Scope: process_genome.py and transposon/{overlap_manager, overlap, merge_data, preprocess, verify_cache, revise_annotation,
-gene_data, transposon_data, import_filtered_genes, import_filtered_TEs, __init__}.py - every def (methods and nested defs too).
+gene_data, transposon_data, import_filtered_genes, import_filtered_TEs, __init__, density_data, density2}.py - every def (methods and nested
+defs too). (density_utils.py is left out: add_te_vals_to_gene_info_pandas tolerates an unknown TE name on purpose - a column of 0, as the model of C08 has it;
+worker.py is left out: WorkerProcess.run ends its loop on KeyboardInterrupt on purpose - its control flow is translator py2gallina_cf's.)
 
 Reading (trusted):
   a statement without control flow        PCall (SAux <line>) if it contains a call, a subscript, an attribute, an operator or a
@@ -33,7 +35,7 @@ import ast, os, re, sys
 
 SCOPE = ["process_genome.py"] + ["transposon/%s.py" % m for m in
          ("overlap_manager", "overlap", "merge_data", "preprocess", "verify_cache", "revise_annotation", "gene_data", "transposon_data",
-          "import_filtered_genes", "import_filtered_TEs", "__init__")]
+          "import_filtered_genes", "import_filtered_TEs", "__init__", "density_data", "density2")]
 POLL_EXC = {"Empty", "Full", "queue.Empty", "queue.Full"}
 POLL_CALLS = {"get", "get_nowait", "put", "put_nowait"}
 LOGGERS = {"logger", "logging", "self._logger", "self.logger", "_logger", "log", "LOGGER"}
